@@ -5,7 +5,7 @@
                dead f p   every later next() raises StopIteration;
                quiet f p  no later next() returns a value (StopIteration, or an exception raised by an operand);
                f is the recursion fuel of the model, binop the operator semantics (arbitrary). *)
-From Isobar Require Import Base.Prelude Pat.Val Pat.Syntax Pat.Step Pat.StepProofs Pat.IterProofs.
+From Isobar Require Import Base.Prelude Pat.Val Pat.Syntax Pat.Step Pat.StepProofs Pat.IterProofs Pat.StickyProofs Pat.StickyConcat.
 From Coq Require Import String QArith.
 Open Scope Z_scope.
 
@@ -31,10 +31,37 @@ Section AnyOperators.
     sticky_pat p -> step binop LMAX f p = (Stop, p') -> quiet binop LMAX f p'.
   Proof. intros f p p' Hns. apply (proj1 (sticky_quiet binop LMAX Hns f)). Qed.
 
+  (* the transformer classes: fpat = sticky_pat extended by PPad, PPadToMultiple, PCollapse, PNoRepeats, PChanged, PDiff,
+     PRound (scalar arguments), PWrap, PCounter, PStutter (pattern or scalar count), PLoop, PSubsequence (scalar offset /
+     length), PIndexOf, PDictKey, PArrayIndex (operands scalars or patterns; PIndexOf / PDictKey also over a literal list /
+     dict), PConcatenate, each over ANY pattern of the fragment, nested to any depth: once next() has raised StopIteration - whether
+     because the input ended, a padding was used up, the repeats of a loop ran out or a pattern-valued count ended - no
+     later next() returns a value, at ANY fuel f2 of the model (so the statement does not depend on the fuel at which
+     the StopIteration was observed) *)
+  Theorem C09_sticky_transformers : forall f p p',
+    (forall o x y, binop o x y <> Stop) ->
+    fpat p -> step binop LMAX f p = (Stop, p') -> forall f2, quiet binop LMAX f2 p'.
+  Proof. intros f p p' Hns. apply (proj1 (fpat_quiet binop LMAX Hns f)). Qed.
+
+  (* the fragment is closed under next(): every later state is again in it (so the theorem applies after any history),
+     and it contains the fragment of C09_sticky *)
+  Theorem C09_fragment_closed : forall f p, fpat p -> fpat (snd (step binop LMAX f p)).
+  Proof. exact (fpat_step_closed binop LMAX). Qed.
+
+  Theorem C09_fragment_extends : forall p, sticky_pat p -> fpat p.
+  Proof. exact sticky_fpat. Qed.
+
+  (* PConcatenate([x1 .. xn]) over patterns of the fragment, in ANY state: once it has raised StopIteration (it is then on
+     its last input, which has stopped) no later next() returns a value.  (Instance of C09_sticky_transformers: fpat has
+     the constructor FP_concat, so PConcatenate may also occur below / above any other class of the fragment.) *)
+  Theorem C09_sticky_concatenate : forall f l pos p',
+    (forall o x y, binop o x y <> Stop) ->
+    Forall farg l -> step binop LMAX f (PConcatenate (AL l) pos) = (Stop, p') -> forall f2, quiet binop LMAX f2 p'.
+  Proof. intros f l pos p' Hns. exact (concat_quiet binop LMAX Hns f l pos p'). Qed.
+
   (* for EVERY class of the model: a state that answers StopIteration without changing answers it for ever.
-     Full statement, open for the remaining finite classes (PStutter PPad PPadToMultiple PLoop PSubsequence
-     PConcatenate PCounter PCollapse PNoRepeats PChanged PDiff PRound PWrap PIndexOf PArrayIndex PDict PDictKey and
-     PSequence with pattern items), validated by the correspondence and the stickiness oracle only:
+     Full statement, open for the remaining finite classes (PDict, PArrayIndex over a literal list, PSequence with pattern
+     items, PRound with pattern arguments), validated by the correspondence and the stickiness oracle only:
        forall f p p', finite_fragment p -> no_pattern_valued_terminating_parameter p ->
                       step f p = (Stop, p') -> quiet f p'                                        *)
   Theorem C09_sticky_remaining_classes_partial : forall f p,
@@ -69,12 +96,20 @@ Section AnyOperators.
 End AnyOperators.
 Print Assumptions C09_sticky.
 Print Assumptions C09_sticky_counter_classes.
+Print Assumptions C09_sticky_transformers.
+Print Assumptions C09_fragment_closed.
+Print Assumptions C09_sticky_concatenate.
 
 (* Python's operators never raise StopIteration, so C09_sticky applies to the concrete engine *)
 Theorem C09_sticky_python : forall LMAX f p p',
   sticky_pat p -> step Val.binop LMAX f p = (Stop, p') -> quiet Val.binop LMAX f p'.
 Proof. intros LMAX f p p'. apply C09_sticky. exact val_binop_no_stop. Qed.
 Print Assumptions C09_sticky_python.
+
+Theorem C09_sticky_transformers_python : forall LMAX f p p',
+  fpat p -> step Val.binop LMAX f p = (Stop, p') -> forall f2, quiet Val.binop LMAX f2 p'.
+Proof. intros LMAX f p p'. apply C09_sticky_transformers. exact val_binop_no_stop. Qed.
+Print Assumptions C09_sticky_transformers_python.
 
 (* non-vacuity *)
 Definition seq_ (l : list Z) (rep : Z) : pat := PSequence (AL (map (fun z => AV (VInt z)) l)) (AV (VInt rep)) 0 0.
@@ -86,6 +121,31 @@ Example C09_sticky_nonvacuous :
 Proof.
   split; [|vm_compute; reflexivity].
   apply SP_binop; apply SA_pat; [apply SP_abs; apply SA_pat|]; apply SP_counter; reflexivity.
+Qed.
+
+(* PPad(PStutter(PCollapse(PSubsequence(PLoop([1, None, 2], 2), 1, 4)), 2), 7): the subsequence None 2 1 None collapses to
+   2 1, stuttered to 4 values, padded with 3 None, then StopIteration for ever *)
+Example C09_transformers_nonvacuous :
+  let src := PSequence (AL [AV (VInt 1); AV VNone; AV (VInt 2)]) (AV (VInt 1)) 0 0 in
+  let p := PPad (AP (PStutter (AP (PCollapse (AP (PSubsequence (AP (PLoop (AP src) (VInt 2) 0 0 false []))
+                                                               (AV (VInt 1)) (AV (VInt 4)) 0 []))))
+                              (AV (VInt 2)) (VInt 0) 0 (VInt 0))) (VInt 7) 0 in
+  fpat p /\
+  fst (outputs Val.binop 100 30 10 p) =
+    [Yield (VInt 2); Yield (VInt 2); Yield (VInt 1); Yield (VInt 1); Yield VNone; Yield VNone; Yield VNone; Stop; Stop; Stop].
+Proof.
+  split; [|vm_compute; reflexivity].
+  apply FP_pad, FA_pat, FP_stutter; [|apply FA_val]. apply FA_pat, FP_collapse, FA_pat, FP_subsequence, FA_pat, FP_loop.
+Qed.
+
+Example C09_concatenate_nonvacuous :
+  let l := [AP (seq_ [1; 2] 1); AP (PPad (AP (seq_ [3] 1)) (VInt 2) 0)] in
+  Forall farg l /\
+  fst (outputs Val.binop 100 30 6 (PConcatenate (AL l) 0)) = [Yield (VInt 1); Yield (VInt 2); Yield (VInt 3); Yield VNone; Stop; Stop].
+Proof.
+  split; [|vm_compute; reflexivity].
+  constructor; [apply FA_pat, FP_counter; reflexivity|].
+  constructor; [|constructor]. apply FA_pat, FP_pad, FA_pat, FP_counter; reflexivity.
 Qed.
 
 Example C09_helpers_nonvacuous :
